@@ -128,7 +128,15 @@ JOBS += [{"name": "yescrypt_wrapper", "props": ["C01", "C04", "C05", "C06", "C15
           "bound": "strlen (setting) < 512",
           "assumptions": ["assumed (not enforced) contracts of yescrypt_init_local, yescrypt_r, yescrypt_free_local: see harness/yescrypt_wrap.c"]}]
 
+def _D20(x):
+    """number of decimal digits of a 64-bit value, as an expression (19 comparisons)"""
+    return "(1 + " + " + ".join("(%s >= 1%sUL)" % (x, "0" * k) for k in range(1, 20)) + ")"
+
 SHA1_LOOPS = [
+    # the digit-counting loop of the length check (the F1 repair): il counts the digits of `iterations`
+    {"function": "_crypt_crypt_sha1crypt_rn", "anchor": "for (ul = iterations; ul >= 10; ul /= 10)",
+     "invariant": "il >= 1 && il <= 20 && il + %s == %s + 1" % (_D20("ul"), _D20("iterations")), "decreases": "ul",
+     "assigns": "il, ul"},
     {"function": "_crypt_crypt_sha1crypt_rn", "anchor": "for (i = 1; i < iterations; ++i)",
      "invariant": "i >= 1 && (i <= iterations || i == 1) && xv_hmac_calls >= 1", "decreases": "iterations - i"},
 ]
@@ -151,3 +159,17 @@ JOBS.append({"name": "scrypt_wrapper", "props": ["C05", "C04", "C07", "C01"], "f
                         "invariant": "i >= 14 && (set_size < 14 ? i == 14 : (i <= set_size && i <= g_fb))", "decreases": "set_size - i"}],
              "unwind": 4, "mem_gb": 4, "timeout": 600, "no_native": True,
              "assumptions": ["crypt_yescrypt_rn replaced by a recording stub; its contract is enforced by yescrypt_wrapper"]})
+
+JOBS.append({"name": "sha1crypt", "props": ["C01", "C03", "C04", "C05", "C06", "C07", "C09", "C11"], "functions": ["crypt_sha1crypt_rn", "to64"],
+             "harness": "harness/sha1crypt.c", "defs": ["XV_BZERO_EVENTS=1", "SETOBJ=136", "XV_PCTS=104", "SCR_CONST=1"], "verif_src": ["models/strings.c"], "repo_src": ["lib/util-base64.c"],
+             "late_src": ["models/snprintf.c"],
+             "loops": [SHA1_LOOPS[0],
+                       {"function": "_crypt_crypt_sha1crypt_rn", "anchor": "for (i = 1; i < iterations; ++i)",
+                        "invariant": "i >= 1 && (i <= iterations || i == 1) && g_calls == i && h_args_ok", "decreases": "iterations - i",
+                        "assigns": "i, g_calls, h_args_ok, h1_len, h1_at_j, __CPROVER_object_whole(hmac_buf)"}],
+             "cases": [("nd%d" % k, "nd == %d" % k) for k in range(21)],
+             "cases_quick": ["nd0", "nd1", "nd5", "nd10", "nd11", "nd20"],
+             "cases_quick_note": "quick tier: iteration fields of 0, 1, 5, 10, 11 and 20 digits; thorough tier: every length 0..20 (exhaustive for the stated domain)",
+             "unwind": 10, "bounds": {"SPAN": 64, "STR": 32, "SPANEXACT": 24, "PCTS": 104}, "mem_gb": 6, "timeout": 2400, "no_native": True, "wip": True,
+             "bound": "strlen (setting) < 136, salt field of at most 104 characters (the first size check of the function assumes 64; the overrun it missed needs 65 or more)",
+             "assumptions": ["hmac_sha1_process_data replaced by its contract (job hmac_sha1)", "A-dec for the printed iteration count"]})
